@@ -402,15 +402,46 @@ theorem c_handleResendRequest (b : SState) (s : Sess) (m : InMsg) (h : Same b s)
         simp only [hrl, c_resendMessages b _ _ _ h'', c_rrTail, mapSt]
         rfl
 
-theorem c_logonReply (b : SState) (s : Sess) (m : InMsg) (flag : Bool) :
+/-- the state in which the acceptor decides about / builds its Logon reply -/
+def hbBase (s : Sess) (m : InMsg) : Sess :=
+  if (!s.cfg.hbOverride) = true then (match getInt m 108 with | .val h => s.setHb h | _ => s) else s
+
+theorem hbBase_frame (s : Sess) (m : InMsg) : (hbBase s m).sentReset = s.sentReset ∧ (hbBase s m).st = s.st := by
+  unfold hbBase; split
+  · cases getInt m 108 <;> exact ⟨rfl, rfl⟩
+  · exact ⟨rfl, rfl⟩
+
+theorem hbBase_setSt (b : SState) (s : Sess) (m : InMsg) : hbBase (s.setSt b) m = (hbBase s m).setSt b := by
+  unfold hbBase
+  by_cases h2 : s.cfg.hbOverride = true
+  · have h2' : (s.setSt b).cfg.hbOverride = true := h2
+    simp only [h2, h2', Bool.not_true, Bool.false_eq_true, if_false]
+  · have h2' : ¬ (s.setSt b).cfg.hbOverride = true := h2
+    simp only [h2, h2', Bool.not_false, if_true]
+    cases getInt m 108 <;> rfl
+
+theorem logonReply_eq (s : Sess) (m : InMsg) (flag : Bool) :
+    logonReply s m flag =
+      if (!s.cfg.initiator) = true then
+        (if (flag && (hbBase s m).sentReset && (hbBase s m).st.loggedOn) = true then hbBase s m else sendLogonRe (hbBase s m) flag m)
+      else s := rfl
+
+theorem c_logonReply (b : SState) (s : Sess) (m : InMsg) (flag : Bool) (h : Same b s) :
     logonReply (s.setSt b) m flag = (logonReply s m flag).setSt b := by
-  unfold logonReply
-  reads
-  by_cases h1 : s.cfg.initiator = true <;> simp only [h1, ↓reduceIte, Bool.false_eq_true, Bool.not_true, Bool.not_false]
-  rw [← c_sendLogonRe]
-  congr 1
-  by_cases h2 : s.cfg.hbOverride = true <;> simp only [h2, ↓reduceIte, Bool.false_eq_true, Bool.not_true, Bool.not_false]
-  cases getInt m 108 <;> rfl
+  rw [logonReply_eq, logonReply_eq, hbBase_setSt]
+  by_cases h1 : s.cfg.initiator = true
+  · have h1' : (s.setSt b).cfg.initiator = true := h1
+    simp only [h1, h1', Bool.not_true, Bool.false_eq_true, if_false]
+  · have h1' : ¬ (s.setSt b).cfg.initiator = true := h1
+    simp only [h1, h1', Bool.not_false, if_true]
+    have e : (flag && ((hbBase s m).setSt b).sentReset && ((hbBase s m).setSt b).st.loggedOn)
+        = (flag && (hbBase s m).sentReset && (hbBase s m).st.loggedOn) := by
+      show (flag && (hbBase s m).sentReset && b.loggedOn) = _
+      rw [h.lo, (hbBase_frame s m).2]
+    rw [e]
+    split
+    · rfl
+    · exact c_sendLogonRe b _ flag m
 
 theorem c_logonFinish (b : SState) (s : Sess) (m : InMsg) : logonFinish (s.setSt b) m = mapSt b (logonFinish s m) := by
   unfold logonFinish mapSt
@@ -458,11 +489,12 @@ theorem c_handleLogon_tail (b : SState) (s1 : Sess) (m : InMsg) (h : Same b s1) 
         then dropAndReset s2 else s2) = s3
     have q3 : Q 0 s1 s3 := by rw [← hs3]; exact hv.trans0 (by q_peel)
     rw [c_verifySelect b s3 m _ _ _ (h.of_Q q3)]
-    generalize verifySelect s3 m false true false = r2
+    have q4 := q_verifySelect s3 m false true false
+    generalize verifySelect s3 m false true false = r2 at q4
     obtain ⟨s4, o2⟩ := r2
     cases o2 with
     | some r => rfl
-    | none => simp only [mapSt, c_logonReply, c_logonFinish]
+    | none => simp only [mapSt, c_logonReply b s4 m _ ((h.of_Q q3).of_Q q4), c_logonFinish]
 
 theorem c_handleLogon (b : SState) (s : Sess) (m : InMsg) (h : Same b s) :
     handleLogon (s.setSt b) m = mapSt b (handleLogon s m) := by
@@ -796,13 +828,20 @@ def hbAfterLogon (s : Sess) (m : InMsg) : Int :=
   else match getInt m 108 with | .val h => h | _ => s.hb
 
 theorem hb_logonReply (s : Sess) (m : InMsg) (flag : Bool) : (logonReply s m flag).hb = hbAfterLogon s m := by
-  unfold logonReply hbAfterLogon sendLogonRe
+  rw [logonReply_eq]
+  unfold hbAfterLogon
   by_cases hi : s.cfg.initiator = true
   · simp [hi]
-  · by_cases ho : s.cfg.hbOverride = true
-    · simp [hi, ho, hb_dropAndSend]
-    · simp only [hi, ho, Bool.not_false, Bool.false_eq_true, if_true, if_false, hb_dropAndSend]
-      cases getInt m 108 <;> rfl
+  · simp only [hi, Bool.not_false, Bool.false_eq_true, if_true, if_false]
+    have hb : (hbBase s m).hb = if s.cfg.hbOverride = true then s.hb else (match getInt m 108 with | .val h => h | _ => s.hb) := by
+      unfold hbBase
+      by_cases ho : s.cfg.hbOverride = true
+      · simp [ho]
+      · simp only [ho, Bool.not_false, if_true, Bool.false_eq_true, if_false]
+        cases getInt m 108 <;> rfl
+    split
+    · exact hb
+    · unfold sendLogonRe; rw [hb_dropAndSend]; exact hb
 
 /-- whenever `handleLogon` gets as far as the reply (accepted, or accepted with a gap), the interval in force is the
     peer's 108 for an acceptor without override, the configured one otherwise -/
